@@ -490,6 +490,7 @@ type c06sys struct {
 	supply  [2]*big.Int // Σ balances in the root state
 	other0  string
 	wide    bool
+	dist    bool // unit "distinguished": funded distinguished addresses, see C06_distinguished_test.go
 	probed  map[string]bool
 	thor    bool
 	nprobes int64
@@ -707,6 +708,11 @@ func (s *c06state) queries(sc *c06state) (string, string) {
 		return common.BigIntFromNeoBytes(res.Ret), nil
 	}
 	names := []string{"A", "B", "C", "Z"}
+	spenders := names[:3]
+	if s.sys.dist {
+		names = append(names, "0", "G", "V", "a")
+		spenders = names
+	}
 	for t := 0; t < 2; t++ {
 		for _, n := range names {
 			a := c06acct[n]
@@ -721,7 +727,7 @@ func (s *c06state) queries(sc *c06state) (string, string) {
 			}
 		}
 		for _, f := range names {
-			for _, sp := range names[:3] {
+			for _, sp := range spenders {
 				want := s.obs.tok[t].a(c06acct[f], c06acct[sp])
 				if want.Sign() == 0 && !(f == "A" && sp == "B") {
 					continue
@@ -780,6 +786,9 @@ func c06third(a, b string) string {
 // time ticks.  The "core" alphabet is the subset marked core; the "wide" one
 // is everything.
 func (s *c06state) events() []string {
+	if s.sys.dist {
+		return s.distEvents()
+	}
 	var out []string
 	wide := s.sys.wide
 	add := func(core bool, e c06ev) {
@@ -901,6 +910,9 @@ func (s *c06state) events() []string {
 
 // probes: the full one-step alphabet judged in every state.
 func (s *c06state) probes() []*c06ev {
+	if s.sys.dist {
+		return s.distProbes()
+	}
 	var out []*c06ev
 	thor := s.sys.thor
 	add := func(e c06ev) {
@@ -1110,6 +1122,9 @@ func (s *c06state) probeAll() {
 		if i&31 == 31 && y.r.Expired() {
 			return
 		}
+		if y.dist && !y.r.Mine(i) {
+			continue // unit "distinguished": every shard visits every state and judges its slice of the probes
+		}
 		if dirty {
 			sc = s.clone()
 			dirty = false
@@ -1119,6 +1134,9 @@ func (s *c06state) probeAll() {
 		y.nprobes++
 		if k == "" {
 			k, d = sc.invariant()
+		}
+		if y.dist {
+			k, cls = c06distKey(k, e), c06distClass(cls, e)
 		}
 		if k != "" {
 			s.report(k, d, e.String())
@@ -1149,7 +1167,12 @@ func c06configs() []*c06cfg {
 
 func (y *c06sys) xsConfig(rootLvl int, depth int) xs.Config {
 	return xs.Config{
-		Init: func() interface{} { return y.newRoot(rootLvl) },
+		Init: func() interface{} {
+			if y.dist {
+				return y.newFundedRoot(rootLvl)
+			}
+			return y.newRoot(rootLvl)
+		},
 		Events: func(si interface{}) []string {
 			return si.(*c06state).events()
 		},
@@ -1157,6 +1180,9 @@ func (y *c06sys) xsConfig(rootLvl int, depth int) xs.Config {
 			s := si.(*c06state)
 			k, d, cls := s.step(c06parse(ev))
 			s.hist = append(s.hist, ev)
+			if y.dist {
+				k = c06distKey(k, c06parse(ev))
+			}
 			if k == "" {
 				y.r.Class(cls)
 			} else {
@@ -1176,7 +1202,7 @@ func (y *c06sys) xsConfig(rootLvl int, depth int) xs.Config {
 			key := s.key()
 			if !y.probed[key] {
 				y.probed[key] = true
-				if y.r.Mine(int(c06hash(key)%1000003)) {
+				if y.dist || y.r.Mine(int(c06hash(key)%1000003)) {
 					y.r.StateKey(key)
 					s.probeAll()
 				}
